@@ -723,7 +723,7 @@ def o6_adoption_guard(prog):
     return r
 
 
-@rule('O7', props=['C05', 'C04', 'C01', 'C13', 'C17'], floor={'all': 15, 'default': 13}, configs=('all', 'default'))
+@rule('O7', props=['C05', 'C04', 'C01', 'C13', 'C17'], floor={'all': 8, 'default': 7}, configs=('all', 'default'))
 def o7_identifier_column(prog):
     """The archetype's identifier column obeys the same raw-parts discipline as the component columns: every
     Vec<entity::Identifier> rebuilt from `X.entity_identifiers` takes its pointer from `.0`, its capacity
